@@ -86,7 +86,12 @@ func (i *ItemIter) Next() bool {
 		return false
 	}
 	// TODO: set context based on a deadline?
-	i.iter = FetchItems(i.ctx, i.current, i.session).iter
+	page := FetchItems(i.ctx, i.current, i.session)
+	if page.err != nil {
+		i.err = page.err
+		return false
+	}
+	i.iter = page.iter
 	return i.Next()
 }
 
